@@ -107,17 +107,18 @@ func mktree(root string, ents []TreeEntry) error {
 			continue
 		}
 		p := filepath.Join(root, e.Path)
-		for _, kv := range e.Xattr {
-			if err := unix.Lsetxattr(p, kv[0], []byte(kv[1]), 0); err != nil {
-				return fmt.Errorf("setxattr %q %q: %w", e.Path, kv[0], err)
-			}
-		}
 		if err := os.Lchown(p, e.UID, e.GID); err != nil {
 			return err
 		}
 		if e.Type != "symlink" {
 			if err := syscall.Chmod(p, e.Mode); err != nil {
 				return err
+			}
+		}
+		// xattrs last: chown drops security.capability
+		for _, kv := range e.Xattr {
+			if err := unix.Lsetxattr(p, kv[0], []byte(kv[1]), 0); err != nil {
+				return fmt.Errorf("setxattr %q %q: %w", e.Path, kv[0], err)
 			}
 		}
 	}
